@@ -180,13 +180,18 @@ def generate(ctx):
             plans.append(((nz,), None, d))
         for e in effects:
             plans.append(((rng.choice(noise),), e, d))
+    # a read that may fill a cache, THEN a write that changes row lengths, then an operation that needs the fresh lengths
+    for nz in ("ok_query", "ok_eval", "query_undefined", "reduce_fails"):
+        for e in ("E_array_setitem", "E_iloc_setitem"):
+            for d in ("D_query", "D_sort", "D_dropna", "D_eval_assign"):
+                plans.append(((nz,), e, d))
     if ctx.tier != "quick":
         for _ in range(300):
             plans.append((tuple(rng.choice(noise) for _ in range(rng.randint(1, 3))), rng.choice(list(effects)), rng.choice([None] + list(derived))))
     for noise_pref, eff, der in plans:
         a_frame, b_frame = make(), make()
         steps = list(noise_pref) + ([eff] if eff else [])
-        if eff and len(noise_pref) and rng.random() < 0.5:
+        if eff and len(noise_pref) and rng.random() < 0.3:
             steps = [eff] + list(noise_pref)          # noise after the write as well as before it
         problems = []
         for name in steps:
